@@ -130,6 +130,12 @@ bool DecodingTable::getSubstring(ChunkScan *c) {
     for (uint i = 0; i < x.length; i++) {
       c->str[c->strLen + i] = stream[position + i];
     }
+
+    // The two first chars extracted for a string can not be its ending: the
+    // first one is (part of) the VByte-encoded length of the shared prefix,
+    // which is 0 for lengths multiple of 128, and the next one is either
+    // the last byte of the VByte or the first (non-zero) char of the suffix
+    uint jump = (c->extracted < 2) ? (2 - c->extracted) : 0;
     c->extracted += x.length;
 
     if (c->extracted <= 2) {
@@ -138,15 +144,23 @@ bool DecodingTable::getSubstring(ChunkScan *c) {
       return false;
     } else {
       if (endings->getBit(index)) {
-        uint substrLen = strlen((char *)&(stream[position])) + 1;
+        // Looking for the ending (it does not exist when the only 0 in
+        // the substring is the one jumped)
+        uint substrLen = jump;
+        while ((substrLen < x.length) && (stream[position + substrLen] != 0))
+          substrLen++;
 
-        c->strLen += substrLen;
-        c->advanced = x.length - substrLen;
-        return true;
-      } else {
-        c->strLen += x.length;
-        return false;
+        if (substrLen < x.length) {
+          substrLen++;
+
+          c->strLen += substrLen;
+          c->advanced = x.length - substrLen;
+          return true;
+        }
       }
+
+      c->strLen += x.length;
+      return false;
     }
 
   } else {
